@@ -30,6 +30,18 @@ const kitchenSink = `{"$id":"https://example.com/ks","title":"Kitchen sink title
  "required":["id"],
  "$defs":{"user_id":{"type":"object","title":"A user id","properties":{"url":{"type":"string"}}}}}`
 
+// collisionSchema: a document in which every naming option makes Go names COLLIDE: under --capitalization URL the
+// definitions serverUrl and serverURL (equal but for a default) get one name; under --struct-name-from-title the
+// document and the definitions-only document it refers to share one title. An option that only renames must keep
+// every declaration (the de-duplicated ones included).
+const collisionSchema = `{"$id":"https://example.com/coll","title":"Example API","type":"object",
+ "properties":{"legacy":{"$ref":"#/$defs/serverUrl"},"modern":{"$ref":"#/$defs/serverURL"},"common":{"$ref":"common.json#/$defs/Endpoint"},
+  "user_id":{"type":"integer"},"userId":{"type":"string"}},
+ "$defs":{"serverUrl":{"type":"object","properties":{"port":{"type":"integer","default":80}}},
+          "serverURL":{"type":"object","properties":{"port":{"type":"integer","default":443}}}}}`
+const collisionCommon = `{"title":"Example API","$defs":{"Endpoint":{"type":"object","properties":{"host":{"type":"string","minLength":1}}},
+ "RetryPolicy":{"type":"object","properties":{"max":{"type":"integer","minimum":0}}}}}`
+
 type proj struct {
 	OK       bool   `json:"ok"`
 	Builds   bool   `json:"builds"`
@@ -193,7 +205,7 @@ func RunOptions(fam *Family, tier, rule string) int {
 	}
 	mc.Distinct += mcu.Distinct
 	mc.Generated += mcu.Generated
-	schemas := []string{kitchenSink}
+	schemas := []string{kitchenSink, collisionSchema}
 	for _, u := range units {
 		t, err := unitSchema(u, nil)
 		if err != nil {
@@ -233,6 +245,11 @@ func RunOptions(fam *Family, tier, rule string) int {
 		if si == 0 {
 			sid = "https://example.com/ks"
 		}
+		files := map[string]string{"root.json": text}
+		if si == 1 {
+			sid = "https://example.com/coll"
+			files["common.json"] = collisionCommon
+		}
 		for mask := 0; mask < 64; mask++ {
 			set := map[string]bool{}
 			var names []string
@@ -246,7 +263,7 @@ func RunOptions(fam *Family, tier, rule string) int {
 			id := fmt.Sprintf("o%06d", n)
 			n++
 			runs[fmt.Sprintf("%d/%s", si, setKey(names))] = &run{id: id, set: names}
-			jobs = append(jobs, work.GenJob{ID: id, Dir: filepath.Join(sc.Dir, "in", id), Files: map[string]string{"root.json": text},
+			jobs = append(jobs, work.GenJob{ID: id, Dir: filepath.Join(sc.Dir, "in", id), Files: files,
 				Entries: []string{"root.json"}, OutDir: filepath.Join(sc.Mod, "gen", id), Cfg: mkCfg(sid, set, id)})
 		}
 	}
